@@ -499,3 +499,30 @@ func init() {
 			}}
 	})
 }
+
+func init() {
+	slow := func(base string) func() *Scenario {
+		return func() *Scenario {
+			sc := scenarioByName(base)
+			sc.SlowFSM = true
+			sc.Horizon += 200
+			return sc
+		}
+	}
+	regScenario("write3-slowfsm", slow("write3"))
+	regScenario("crash3-slowfsm", slow("crash3"))
+	regScenario("transfer-slowfsm", slow("transfer"))
+}
+
+func init() {
+	pipe := func(base string) func() *Scenario {
+		return func() *Scenario {
+			sc := scenarioByName(base)
+			sc.Pipeline = true
+			return sc
+		}
+	}
+	for _, b := range []string{"write3", "crash3", "snap3", "stale-suffix", "transfer"} {
+		regScenario(b+"-pipe", pipe(b))
+	}
+}
